@@ -8,7 +8,9 @@ VERDICT = 'C04_verdict'
 PROPS_FILE = 'theories/Props/C04.v'
 THEOREM = 'C04_release_fifo_once'
 CASE_TIMEOUT = 1
-RULE = ('random programs over one EventDispatcher (30 %: a real desper.World used through its '
+RULE = ('in 35 % of the cases the handler classes make their instances falsy (__bool__ False or '
+        '__len__ 0; identity and default equality untouched); '
+        'random programs over one EventDispatcher (30 %: a real desper.World used through its '
         'dispatcher API) with 2-5 scripted handlers of 1-5 decorated classes and 1-3 events: blocks of "disable; 1-5 dispatches (mixed with add/remove/'
         'dispatch of unheard names); enable (1-3 times)"; half of the handler methods carry a '
         'script of 1-3 actions (add/remove/dispatch/raise/disable/enable/clear) so that an '
